@@ -77,6 +77,7 @@ struct config_desc {
     const service_desc* services; std::size_t n_services;
     const char_desc* chars; std::size_t n_chars;
     const attr_desc* attrs; std::size_t n_attrs;
+    const int* cccd_storage;        // CCCD k (declaration order) -> index of its flags in the server's client_characteristic_configuration
 };
 
 using bytes = std::vector< std::uint8_t >;
@@ -1164,11 +1165,14 @@ private:
             if ( cfg_.n_cccd == 0 ) break;
             auto cc = conns_[ c ]->client_configurations();
             for ( int k = 0; k != cfg_.n_cccd; ++k )
-                if ( cc.flags( static_cast< std::size_t >( k ) ) != m_.conns[ c ].cccd[ static_cast< std::size_t >( k ) ] )
+            {
+                const std::size_t at = static_cast< std::size_t >( cfg_.cccd_storage[ k ] );
+                if ( cc.flags( at ) != m_.conns[ c ].cccd[ static_cast< std::size_t >( k ) ] )
                 {
-                    violate( "C09", "cccd-store", "cccd-store", "connection %u CCCD #%d is %u, model %u", c, k, cc.flags( static_cast< std::size_t >( k ) ), m_.conns[ c ].cccd[ static_cast< std::size_t >( k ) ] );
-                    m_.conns[ c ].cccd[ static_cast< std::size_t >( k ) ] = static_cast< std::uint8_t >( cc.flags( static_cast< std::size_t >( k ) ) );
+                    violate( "C09", "cccd-store", "cccd-store", "connection %u CCCD #%d is %u, model %u", c, k, cc.flags( at ), m_.conns[ c ].cccd[ static_cast< std::size_t >( k ) ] );
+                    m_.conns[ c ].cccd[ static_cast< std::size_t >( k ) ] = static_cast< std::uint8_t >( cc.flags( at ) );
                 }
+            }
             if ( conns_[ c ]->negotiated_mtu() != m_.mtu( m_.conns[ c ] ) )
             {
                 violate( "C08", "mtu-state", "mtu-state", "connection %u negotiated MTU is %u, model %u", c, conns_[ c ]->negotiated_mtu(), m_.mtu( m_.conns[ c ] ) );
